@@ -30,6 +30,7 @@ def run(ctx):
     r85(ctx, api)
     r86(ctx, ut)
     r87(ctx, ut)
+    r89(ctx, ut)
     from . import c14 as _c14
     _c14.r146(ctx, 'R8.8')
     c05.r56(ctx)
@@ -52,8 +53,20 @@ def r81(ctx, wr):
         body = [norm(x) for x in op[0].body]
         ctx.ob('R8.1', 'writer.partition_on_columns:part-written-from-the-group-without-partition-columns',
                len(body) == 1 and body[0].startswith('rg = make_part_file(f2, df, fmd.schema'), str(body)[:120], wr.loc(op[0]))
-    loop = [s for s in iter_child_stmts(f.body) if isinstance(s, ast.For) and 'sorted(gb)' in norm(s.iter)]
+    # the writing loop runs once over all groups (directly over sorted(gb) or over a local bound to it)
+    gdef = {norm(s.targets[0]) for s in iter_child_stmts(f.body) if isinstance(s, ast.Assign) and norm(s.value) == 'sorted(gb)'}
+    loop = [s for s in iter_child_stmts(f.body) if isinstance(s, ast.For) and (norm(s.iter) == 'sorted(gb)' or norm(s.iter) in gdef)
+            and any(isinstance(x, ast.With) for x in ast.walk(s))]
     ctx.ob('R8.1', 'writer.partition_on_columns:every-group-visited-once', len(loop) == 1 and norm(loop[0].target) == '(key, group)', '', wr.loc(f))
+    # key texts that cannot be one directory level are refused before any part is written
+    chk = [s for s in iter_child_stmts(f.body) if isinstance(s, ast.Raise) and 'directory name' in norm(s)]
+    okc = len(chk) == 1 and bool(loop) and all(not cfg.exists_path(cfg.node_of(op[0]), cfg.node_of(chk[0])) for _ in [0]) and \
+        cfg.exists_path(cfg.node_of(chk[0]), cfg.node_of(op[0])) is False
+    tests = [norm(e.test) for e, fld in cfg.enclosing_tests(chk[0]) if isinstance(e, ast.If)] if chk else []
+    sep_ok = any("'/' in text" in t and "'\\\\' in text" in t and "'=' in text" in t for t in tests)
+    ctx.ob('R8.1', 'writer.partition_on_columns:separator-characters-in-key-text-refused-before-writing',
+           len(chk) == 1 and sep_ok and bool(op) and not cfg.exists_path(cfg.node_of(op[0]), cfg.node_of(chk[0])),
+           'a value whose text contains / or a backslash (or = in the hive layout) would be read back as several levels: %s' % tests, wr.loc(f))
     g = wr.func('write_multi')
     s = src(g)
     ctx.ob('R8.1', 'writer.write_multi:unpartitioned-part-recorded-under-its-name',
@@ -131,15 +144,28 @@ def r83(ctx, wr, api, ut, core):
     for m, q, c in sites:
         meta = kwarg(c, 'meta', 1)
         t = norm(meta) if meta is not None else ''
-        ok = 'partition_meta.get(' in t or (q == 'filter_out_cats' and norm(c) == 'val_to_num(v)')
+        ok = 'partition_meta.get(' in t or (q == 'filter_out_cats' and norm(c) == 'val_to_num(v)') or \
+            (q == '_path_to_cats' and norm(c) == 'val_to_num(val, meta)')     # the whole-key text arm (checked below)
         ctx.ob('R8.3', '%s.%s:val_to_num-gets-the-partition-metadata-of-its-key:%s' % (m.name, q, norm(c)[:50]), ok,
                'meta argument: %s' % (t or '(none)'), m.loc(c))
+    # a key is typed as a whole: every value through the key's partition metadata, and - as soon as one of them
+    # stays text - every value as text (the decision must not depend on the order the paths are met in)
     k = [norm(c) for _, q, c in sites if q == '_path_to_cats']
-    ctx.ob('R8.3', 'api._path_to_cats:string-typed-keys-stay-strings',
-           k == ['val_to_num(val, meta if key in string_types else partition_meta.get(key))'], str(k), api.loc(p2c))
+    whole = [x for x in ast.walk(p2c) if isinstance(x, ast.If) and 'isinstance(tp, str)' in norm(x.test) and norm(x.test).startswith('any(')]
+    ok = sorted(k) == ['val_to_num(val, meta)', 'val_to_num(val, partition_meta.get(key))'] and len(whole) == 1 and \
+        any(isinstance(st, ast.Assign) and 'val_to_num(val, meta)' in norm(st.value) for st in whole[0].body)
+    ctx.ob('R8.3', 'api._path_to_cats:string-typed-keys-stay-strings', ok,
+           'typing calls %s; per-key decision `%s`' % (k, norm(whole[0].test) if whole else 'none'), api.loc(p2c))
+    per_value = [x for x in ast.walk(p2c) if isinstance(x, ast.Call) and callee(x) == 'string_types.add']
+    ctx.ob('R8.3', 'api._path_to_cats:typing-independent-of-path-order', not per_value,
+           'a per-value switch to text (string_types.add while iterating) types the values met earlier differently', api.loc(p2c))
     s2b = src(rr)
+    fb = [x for x in ast.walk(rr) if isinstance(x, ast.If) and norm(x.test) == 'val not in cats[cat]']
     ctx.ob('R8.3', 'core.read_row_group:partition-code-is-the-index-of-the-typed-value',
-           'val = val_to_num(val, meta=partition_meta.get(key))' in s2b and 'assign[cat][:] = cats[cat].index(val)' in s2b, '', core.loc(rr))
+           'val = val_to_num(text, meta=partition_meta.get(key))' in s2b and 'assign[cat][:] = cats[cat].index(val)' in s2b
+           and len(fb) == 1 and [norm(x) for x in fb[0].body] == ['val = text'],
+           'the row group\'s directory text is typed like its key\'s categories: through the metadata, falling back to the raw '
+           'text exactly when the typed value is not among the categories (key kept as text)', core.loc(rr))
 
 
 def r84(ctx, ut):
@@ -170,7 +196,9 @@ def r85(ctx, api=None):
            'seen.add(%s) / `%s`: two partition columns can carry the same value text' % (
                norm(adds[0].args[0]) if adds else '?', norm(tests[0]) if tests else '?'), api.loc(f))
     s = src(f)
-    ctx.ob('R8.5', 'api._path_to_cats:every-value-registered-under-its-key', 'cats.setdefault(key, set()).add(tp)' in s, '', api.loc(f))
+    ctx.ob('R8.5', 'api._path_to_cats:every-value-registered-under-its-key',
+           'texts.setdefault(key, []).append(val)' in s and 'cats[key] = list(set(typed))' in s,
+           'each distinct (key, value) text is collected under its key and every collected text ends up typed in cats[key]', api.loc(f))
 
 
 PARSER_ORDER = ['int', 'float', 'pd.Timestamp', 'pd.Timedelta']
@@ -237,3 +265,14 @@ def r87(ctx, ut, rule='R8.7'):
     ok = bool(arm) and any(isinstance(r, ast.Return) and norm(r.value) == 'str(dtype).lower()' for r in arm[0].body)
     ctx.ob(rule, 'util.get_numpy_type:nullable-integers-recorded-under-their-numpy-name', ok,
            "np.dtype('Int64') does not exist; the reader parses the recorded name with np.dtype", ut.loc(g))
+
+
+def r89(ctx, ut, rule='R8.9'):
+    """val_from_meta hands the recorded numpy_type to np.dtype only for names numpy knows: time-zone aware and pandas'
+    nullable float names are treated before"""
+    f = ut.func('val_from_meta')
+    s = norm(ast.Module(body=f.body, type_ignores=[]))
+    ctx.ob(rule, 'util.val_from_meta:time-zone-aware-partition-type-handled', "startswith('datetime64[')" in s and 'pd.Timestamp(x)' in s,
+           "np.dtype('datetime64[us, UTC]') raises TypeError", ut.loc(f))
+    ctx.ob(rule, 'util.val_from_meta:nullable-float-partition-type-handled', "'Float64'" in s and '.lower()' in s,
+           "np.dtype('Float64') raises TypeError", ut.loc(f))
